@@ -183,6 +183,12 @@ def gen_cases(ctx):
             t = 1 if ctx.rng.random() < pos else 0
             pairs.append([t, t if ok else 1 - t])
         cases.append({"params": p, "pairs": pairs, "seed": 1000 + k})
+    import random
+    r2 = random.Random(ctx.seed + 5)
+    for c in cases:
+        kind = r2.choice(["int", "int", "int", "bool", "np_bool"])
+        if kind != "int":
+            c["label_kind"] = kind
     return cases
 
 
@@ -190,15 +196,17 @@ def run_impl(case):
     d = make(case)
     rows = []
     synth, prev = (None if HOOKS else SynthLog(case["params"])), None
+    # the same 0/1 labels handed over as Python / numpy booleans
+    conv = {"bool": bool, "np_bool": np.bool_}.get(case.get("label_kind"), int)
     for i, (yt, yp) in enumerate(case["pairs"]):
         np.random.seed((case["seed"] * 7919 + i) % (2 ** 31))
         if HOOKS:
             k0 = len(d._vlog)
-            d.update(yt, yp)
+            d.update(conv(yt), conv(yp))
             log = [list(x) for x in d._vlog[k0:]]
         else:
             with NumpyLog() as L:
-                d.update(yt, yp)
+                d.update(conv(yt), conv(yp))
             log = synth.step(yt, yp, prev, L.sims)
         st, tot, sin = lifecycle_obs(d)
         prev = st
